@@ -1,22 +1,46 @@
 """C04 — read-only queries and analyses are pure and independent of query history.
 
-Lean: Props/C04.lean (cache transparency: the outcome of every modelled query is a function of the observable content and the
-arguments; history independence by induction; a cached interpolator is only used under an equal key).
-Tie / failing-input search (the same runs): seeded sequences of read-only calls on real objects — accessors, loading_at /
-pressure_at / spreading_pressure_at with every branch / kind / fill / unit argument, exports, every function of
-pygaps.characterisation, model fitting, IAST — where (a) a deep snapshot of every object passed in (identifier, labels, every
-data cell, metadata, adsorbate and material properties) is compared before and after each call and (b) the outcome (value to
-1e-10, or the error class) is compared with the same call issued FIRST on an identical fresh object with all module caches
-cleared.  The model's prediction for (b) is "equal" for every query, so a disagreement is at once a broken correspondence and a
-concrete failing history.
+Lean: Props/C04.lean about Model/Cache.lean — cache transparency for the three kinds of hidden state of the library:
+  * interpolator caches of a point isotherm (key = branch, kind, fill): `query_outcome_history_free`, `cache_key_sound`;
+  * the thermodynamic state of an adsorbate (`_state`, created lazily by `backend`, re-`update`d by every accessor):
+    `thermo_query_history_free` under the invariant `FullUpdate` (witness `fullUpdate_necessary`); the defect class "accessor
+    memoises into the public dictionary": `memo_changes_adsorbate`, `memo_changes_outcome_kind`;
+  * module-level caches of loaded reference curves / DFT kernels (`_LOADED`): `loaded_history_free` under `KeyDetermines`
+    (witness `keyDetermines_necessary`);
+  * all three side by side: `session_history_free` (instance of the generic `history_free_of_invariant`).
+Tie: driver Drv/Cache.lean runs the model on the trace of modelled calls recorded here (loading_at / pressure_at /
+spreading_pressure_at keys, accessor flashes, curve / kernel requests); its prediction of the hidden state after every call
+(which interpolator key is cached, which flash the CoolProp state holds, which names are in `_LOADED`) and of the KIND of
+outcome of every accessor is compared with the real objects.
+Failing-input search (the same runs): seeded sequences of read-only calls on real objects — measured N2 isotherms and
+synthetic isotherms of adsorbates with / without a backend and with / without stored thermodynamic keys, built-in and
+user-defined, with materials that carry properties — where (a) a deep snapshot of every object passed in (identifier, labels,
+every data cell, metadata, adsorbate and material `properties` (exact, ordered) and `to_dict()`, argument lists and arrays)
+is compared before and after each call and (b) the outcome (value to 1e-10, or the error class) is compared with the same call
+issued FIRST on identical fresh objects (fresh registry objects, module caches cleared).  One sweep per world issues every
+entry of the catalogue at least once (every function exported by pygaps.characterisation — checked by introspection —, every
+public thermodynamic accessor with calculate True / False, model-isotherm queries, exports, fitting, IAST); targeted pairs
+cover cache keys that differ in one component, every ordered pair of accessors on every class of adsorbate, and every ordered
+pair of reference curves / kernel files (including two files of the same name).
 """
+import contextlib
+import copy
+import io
+import itertools
 import math
 import os
+import shutil
+import tempfile
 
 from pgv.core import REPO, err_class, import_pygaps
 
 DATA = REPO / "docs" / "examples" / "data"
 SAMPLES = ["MCM-41 N2 77.355.json", "NaY N2 77.355.json", "SiO2 N2 77.355.json", "Takeda 5A N2 77.355.json", "UiO-66(Zr) N2 77.355.json"]
+
+# dictionary keys read by the thermodynamic accessors of Adsorbate
+CONST_KEYS = ["p_triple", "t_triple", "p_critical", "t_critical"]
+THERMO_KEYS = CONST_KEYS + ["molar_mass", "saturation_pressure", "surface_tension", "liquid_density", "liquid_molar_density", "gas_density",
+                            "gas_molar_density", "enthalpy_vaporisation", "enthalpy_liquefaction"]
 
 
 def canon(x, depth=0):
@@ -36,7 +60,7 @@ def canon(x, depth=0):
         return tuple(canon(v, depth + 1) for v in list(x)[:400])
     if isinstance(x, dict):
         return tuple(sorted((str(k), canon(v, depth + 1)) for k, v in x.items() if k not in ("limits",) or True))
-    if hasattr(x, "iso_id"):
+    if _is_isotherm(x):
         return ("iso", x.iso_id)
     if hasattr(x, "to_dict") and depth < 2:
         try:
@@ -52,17 +76,59 @@ def canon(x, depth=0):
     return str(type(x).__name__)
 
 
-def snapshot(pg, iso):
-    d = {"id": iso.iso_id, "dict": canon(iso.to_dict()), "ads": canon(dict(iso.adsorbate.properties)), "ads_alias": tuple(iso.adsorbate.alias),
-         "mat": canon(dict(iso.material.properties))}
+def _is_isotherm(x):
+    return any(c.__name__ == "BaseIsotherm" for c in type(x).__mro__)
+
+
+def exact(d):
+    """Exact, ORDERED image of a properties dictionary (nothing may write there: no tolerance, key order and value types included)."""
+    return tuple((str(k), type(v).__name__, repr(v)) for k, v in d.items())
+
+
+def snap_ads(a):
+    return {"name": a.name, "alias": tuple(a.alias), "properties": exact(a.properties), "to_dict": canon(a.to_dict()),
+            "public_attributes": tuple(sorted(k for k in vars(a) if not k.startswith("_")))}
+
+
+def snap_mat(m):
+    return {"name": m.name, "properties": exact(m.properties), "to_dict": canon(m.to_dict()),
+            "public_attributes": tuple(sorted(k for k in vars(m) if not k.startswith("_")))}
+
+
+def snapshot(pg, iso, with_id=True):
+    d = {"id": iso.iso_id if with_id else None, "dict": canon(iso.to_dict()), "ads": canon(dict(iso.adsorbate.properties)), "ads_alias": tuple(iso.adsorbate.alias),
+         "mat": canon(dict(iso.material.properties)), "adsorbate": snap_ads(iso.adsorbate), "material": snap_mat(iso.material),
+         "metadata": exact(iso.properties) if isinstance(getattr(iso, "properties", None), dict) else None}
     if isinstance(iso, pg.PointIsotherm):
         raw = iso.data_raw
         d["cols"] = tuple(raw.columns)
         d["cells"] = tuple(tuple(canon(v) for v in raw[c].tolist()) for c in raw.columns)
         d["index"] = tuple(raw.index.tolist())
+        d["dtypes"] = tuple(str(t) for t in raw.dtypes) + (str(raw.index.dtype),)
     elif isinstance(iso, pg.ModelIsotherm):
         d["model"] = canon(iso.model.to_dict())
+        d["model_bounds"] = canon(iso.model.param_bounds)
     return d
+
+
+def snap_any(pg, v, with_id=True):
+    """Snapshot of one entry of the object dictionary handed to a query."""
+    import numpy as np
+    if v is None:
+        return None
+    if isinstance(v, (list, tuple)):
+        return {"order": tuple(id(x) for x in v), "items": [snap_any(pg, x, with_id) for x in v]}
+    if isinstance(v, dict):
+        return {k: snap_any(pg, x, with_id) for k, x in v.items()}
+    if isinstance(v, np.ndarray):
+        return ("arr", v.shape, str(v.dtype), tuple(v.ravel().tolist()))
+    if _is_isotherm(v):
+        return snapshot(pg, v, with_id)
+    if isinstance(v, pg.Adsorbate):
+        return snap_ads(v)
+    if isinstance(v, pg.Material):
+        return snap_mat(v)
+    return repr(v)
 
 
 def clear_module_caches(pg):
@@ -72,13 +138,26 @@ def clear_module_caches(pg):
     pk._LOADED.clear()
 
 
+def fill_tok(fill):
+    """A fill value as one protocol token (no blanks, no commas)."""
+    return "~" if fill is None else repr(fill).replace(" ", "").replace(",", ":").replace("'", "")
+
+
 def run(ck):
     pg = import_pygaps()
+    import matplotlib
+    matplotlib.use("Agg")
+    import CoolProp as CP
     import numpy as np
+    import pandas as pd
     import pygaps.characterisation as pgc
+    import pygaps.characterisation.models_thickness as mt
+    import pygaps.characterisation.psd_kernel as pk
     import pygaps.iast as pgi
     import pygaps.modelling as pgm
+    from pygaps.modelling.base_model import IsothermBaseModel
     from pygaps.parsing.json import isotherm_from_json
+    from pygaps.utilities.coolprop_utilities import thermodynamic_backend
     rng = ck.rng
     thorough = ck.tier == "thorough"
 
@@ -90,21 +169,347 @@ def run(ck):
 
     iast_ok = len(load_iast()) == 2
 
-    # ------------------------------------------------------------------ query catalogue: name -> f(objs) -> outcome; objs = {'iso','ref','cold','pair'}
+    # ================================================================== the registry as it is before any query (what a fresh interpreter sees)
+    PRISTINE = [copy.deepcopy(a.to_dict()) for a in pg.ADSORBATE_LIST]
+    PRISTINE_EXACT = {d["name"]: exact({k: v for k, v in d.items() if k not in ("name", "alias")}) for d in PRISTINE}
+    USER_ADS = []          # dictionaries of the user-defined adsorbates of this run (registered by reset_registry)
+
+    def mk_ads(d):
+        d = {k: (v if isinstance(v, (str, int, float, bool, type(None))) else copy.deepcopy(v)) for k, v in d.items()}
+        return pg.Adsorbate(d.pop("name"), **d)
+
+    def reset_registry():
+        """Every registered adsorbate becomes a NEW object built from its pristine dictionary (no thermodynamic state, untouched
+        properties), the user-defined adsorbates of the run are registered again, module caches are emptied."""
+        pg.ADSORBATE_LIST[:] = [mk_ads(d) for d in PRISTINE] + [mk_ads(d) for d in USER_ADS]
+        clear_module_caches(pg)
+
+    def registry_changes():
+        out = []
+        for a in pg.ADSORBATE_LIST:
+            want = PRISTINE_EXACT.get(a.name)
+            if want is None:
+                want = next((exact({k: v for k, v in d.items() if k not in ("name", "alias")}) for d in USER_ADS if d["name"] == a.name), None)
+            if want is not None and exact(a.properties) != want:
+                out.append({"adsorbate": a.name, "before": [x for x in want if x not in exact(a.properties)][:4], "after": [x for x in exact(a.properties) if x not in want][:4]})
+        return out
+
+    # ------------------------------------------------------------------ CoolProp asked directly (never through an Adsorbate object)
+    def cp_const(backend_name, what):
+        try:
+            v = CP.CoolProp.PropsSI(what, backend_name)
+            return v if math.isfinite(v) else None
+        except Exception:
+            return None
+
+    def cp_read(backend_name, pair, v1, v2, name):
+        """Does a brand-new CoolProp state answer `name` after update(pair, v1, v2)?  (the residue F of the Lean model)"""
+        if backend_name is None:
+            return None
+        try:
+            st = CP.AbstractState(thermodynamic_backend(), backend_name)
+            st.update(getattr(CP, pair + "_INPUTS"), v1, v2)
+            v = getattr(st, name)()
+            return v
+        except BaseException:
+            return None
+
+    # ------------------------------------------------------------------ classes of adsorbates (chosen by their content, never by name)
+    builtin = {d["name"]: d for d in PRISTINE}
+
+    def usable_backend(d):
+        b = d.get("backend_name")
+        return b is not None and cp_const(b, "Ttriple") is not None and cp_const(b, "Tcrit") is not None
+
+    with_backend = sorted(n for n, d in builtin.items() if usable_backend(d))
+    ads_classes = {
+        "built-in, backend, every constant stored": [n for n in with_backend if all(k in builtin[n] for k in CONST_KEYS)],
+        "built-in, backend, a constant not stored": [n for n in with_backend if any(k not in builtin[n] for k in CONST_KEYS)],
+        "built-in, no backend": sorted(n for n, d in builtin.items() if "backend_name" not in d),
+    }
+
+    def temps_of(backend_name):
+        """Three temperatures of a fluid: two inside the saturation range, one above the critical point."""
+        tt, tc = cp_const(backend_name, "Ttriple"), cp_const(backend_name, "Tcrit")
+        t1 = tt + rng.uniform(0.30, 0.55) * (tc - tt)
+        t2 = tt + rng.uniform(0.60, 0.80) * (tc - tt)
+        return round(t1, 2), round(t2, 2), round(tc * rng.uniform(1.05, 1.3), 2)
+
+    def user_defined(kind, idx):
+        """Dictionary of a user-defined adsorbate."""
+        if kind == "user-defined, backend, nothing stored":
+            return {"name": f"pgv-gas-{idx}", "backend_name": builtin[rng.choice(with_backend)]["backend_name"]}
+        if kind == "user-defined, backend, some keys stored":
+            d = {"name": f"pgv-gas-{idx}", "alias": [f"pgv-alias-{idx}"], "backend_name": builtin[rng.choice(with_backend)]["backend_name"], "formula": "X2"}
+            for k in rng.sample(THERMO_KEYS, rng.randint(2, 6)):
+                d[k] = round(rng.uniform(0.5, 50.0), 4)          # deliberately NOT the backend's value: the two paths are distinguishable
+            return d
+        d = {"name": f"pgv-gas-{idx}", "molar_mass": round(rng.uniform(10, 120), 3), "saturation_pressure": round(rng.uniform(5e4, 5e5), 1)}
+        for k in rng.sample([k for k in THERMO_KEYS if k not in d], rng.randint(2, 7)):
+            d[k] = round(rng.uniform(0.5, 50.0), 4)
+        return d
+
+    user_kinds = ["user-defined, backend, nothing stored", "user-defined, backend, some keys stored", "user-defined, no backend, some keys stored"]
+    pool = []              # (class label, adsorbate name)
+    for label, names in ads_classes.items():
+        for n in rng.sample(names, min(len(names), ck.n(1, 3))):
+            pool.append((label, n))
+    for i, kind in enumerate(user_kinds * ck.n(1, 2)):
+        d = user_defined(kind, i)
+        USER_ADS.append(d)
+        pool.append((kind, d["name"]))
+    all_defs = dict(builtin)
+    all_defs.update({d["name"]: d for d in USER_ADS})
+    reset_registry()
+
+    # ================================================================== worlds: descriptions from which identical fresh objects are built
+    def synthetic_world(label, ads_name, idx):
+        d = all_defs[ads_name]
+        b = d.get("backend_name")
+        if b is not None:
+            t1, t2, t3 = temps_of(b)
+            T, T2 = (t1, t2) if rng.random() < 0.8 else (t3, t1)       # sometimes above the critical point: the backend refuses, the dictionary is consulted
+            psat = cp_read(b, "QT", 0.0, T, "p")
+        else:
+            T, T2, psat = 298.15, 323.15, d.get("saturation_pressure")
+        rel = psat is not None and rng.random() < 0.4
+        top = 0.95 if rel else (min(0.9 * psat / 1e5, 20.0) if psat else rng.uniform(1.0, 20.0))
+        n = rng.randint(18, 30)
+        ps = sorted({round(top * (10 ** rng.uniform(-3.5, 0)), 9) for _ in range(n)} | {top})
+        nm, K, tt = rng.uniform(3, 12), rng.uniform(2, 30) / top, rng.uniform(0.6, 1.0)
+        ads_l = [nm * K * p / (1 + (K * p) ** tt) ** (1 / tt) for p in ps]
+        k = rng.randint(6, 9)
+        des_p = sorted(rng.sample(ps[2:-1], k), reverse=True)
+        des_l = [nm * K * p / (1 + (K * p) ** tt) ** (1 / tt) * (1 + 0.15 * (1 - p / top)) for p in des_p]
+        pressure, loading = ps + des_p, ads_l + des_l
+        mat = {"name": f"pgv-solid-{idx}"}
+        if rng.random() < 0.75:
+            mat.update({"density": round(rng.uniform(0.4, 3.0), 3), "molar_mass": round(rng.uniform(60, 900), 2), "batch": "b" + str(idx)})
+        return {"kind": "synthetic", "name": f"synthetic#{idx} [{label}] {ads_name} {T} K", "class": label, "adsorbate": ads_name, "T": T, "T2": T2,
+                "units": {"pressure_mode": "relative" if rel else "absolute", "pressure_unit": None if rel else "bar", "loading_basis": "molar", "loading_unit": "mmol",
+                          "material_basis": "mass", "material_unit": "g", "temperature_unit": "K"},
+                "pressure": pressure, "loading": loading, "branch": [0] * len(ps) + [1] * len(des_p),
+                "enthalpy": [round(40 - 20 * l / nm + rng.uniform(-0.5, 0.5), 4) for l in loading], "material": mat, "meta": {"user": "pgv", "run": idx},
+                "miso": {"model": rng.choice(["Langmuir", "Toth"]), "n_m": nm, "K": K / 1e5 if not rel else K, "t": tt, "top": top * 1e5 if not rel else top},
+                "miso2": {"model": rng.choice(["Henry", "DSLangmuir", "Freundlich", "Quadratic", "TemkinApprox", "JensenSeaton", "BET", "GAB"])}}
+
+    def build_point(w, temperature=None, scale=1.0):
+        df = pd.DataFrame({"pressure": list(w["pressure"]), "loading": [l * scale for l in w["loading"]], "enthalpy": list(w["enthalpy"])})
+        return pg.PointIsotherm(isotherm_data=df, pressure_key="pressure", loading_key="loading", branch=list(w["branch"]), material=dict(w["material"]),
+                                adsorbate=w["adsorbate"], temperature=w["T"] if temperature is None else temperature, **w["units"], **w["meta"])
+
+    def build_model(adsorbate, T, spec, material, in_pa=True):
+        name = spec["model"]
+        if name in ("Langmuir", "Toth"):
+            params = {"n_m": spec["n_m"], "K": spec["K"]}
+            if name == "Toth":
+                params["t"] = spec["t"]
+            pr = (spec["top"] * 1e-3, spec["top"])
+        else:
+            from pgv.models import sample_params
+            import random
+            params = sample_params(name, random.Random(f"{name}/{ck.seed}"))
+            pr = (0.01, 0.9)
+        model = pgm.get_isotherm_model(name, parameters={k: np.float64(v) for k, v in params.items()}, pressure_range=pr, loading_range=(0.0, 5.0), rmse=0.01)
+        units = {"pressure_mode": "absolute", "pressure_unit": "Pa" if in_pa else "bar", "loading_basis": "molar", "loading_unit": "mmol", "material_basis": "mass",
+                 "material_unit": "g", "temperature_unit": "K"}
+        return pg.ModelIsotherm(model=model, branch="ads", material=material, adsorbate=adsorbate, temperature=T, **units)
+
+    class Objs(dict):
+        """The objects of a world, built on first use (identical every time); `snaps` holds the snapshot taken when each was built /
+        after the last call."""
+
+        def __init__(self, w):
+            super().__init__()
+            self.w = w
+            self.snaps = {}
+            self.ids = "all"          # "all": the identifier of every object is recomputed after every call; "iso": of the isotherm under test only
+            self.first_ids = {}       # (the others then at the end of the history: hashing dominates the cost of a long history)
+            self["T_other"] = w.get("T2", 87.3)
+            self["kernel"] = KERNEL_FILES
+
+        def __missing__(self, key):
+            v = self.make(key)
+            self[key] = v
+            if key not in ("T_other", "kernel"):
+                self.snaps[key] = snap_any(pg, v, self.ids == "all" or key == "iso")
+                self.first_ids[key] = _ids_of(v)
+            return v
+
+        def make(self, key):
+            w = self.w
+            measured = w["kind"] == "measured"
+            if key == "iso":
+                return load(w["file"]) if measured else build_point(w)
+            if key == "ref":
+                return load("SiO2 N2 77.355.json") if measured else build_point(w, scale=0.37)
+            if key == "cold":
+                if measured:
+                    cold = load(w["file"])
+                    cold._temperature = 87.3          # same adsorbate, other temperature (constructed before any query is issued)
+                    return cold
+                return build_point(w, temperature=w["T2"])
+            if key == "pair":
+                if measured:
+                    return load_iast() if iast_ok else None
+                return [build_point(w, scale=0.8), build_point(w, scale=1.7)]
+            if key == "miso":
+                if measured:
+                    return build_model("nitrogen", 77.355, w["miso"], "pgv-model-solid")
+                spec = w["miso"] if w["units"]["pressure_mode"] == "absolute" else dict(w["miso"], K=w["miso"]["K"] / 1e5, top=w["miso"]["top"] * 1e5)
+                return build_model(w["adsorbate"], w["T"], spec, dict(w["material"]), in_pa=True)
+            if key == "miso2":
+                if measured:
+                    return build_model("nitrogen", 77.355, w["miso2"], "pgv-model-solid", in_pa=False)
+                return build_model(w["adsorbate"], w["T"], w["miso2"], dict(w["material"]), in_pa=False)
+            if key == "arrays":
+                src = load(w["file"]) if measured else build_point(w)      # a separate object: the isotherm under test is not touched
+                p, l = src.pressure(branch="ads"), src.loading(branch="ads")
+                return {"pressure": np.array(p, dtype=float), "loading": np.array(l, dtype=float), "ref_loading": np.array(l, dtype=float) * 0.4}
+            if key == "ref_same":                          # a reference isotherm over a slightly WIDER pressure range than `iso` (alpha_s reads it at the pressures of `iso`)
+                src = load(w["file"]) if measured else build_point(w, scale=0.61)
+                p, l = [float(x) for x in src.pressure(branch="ads")], [float(x) for x in src.loading(branch="ads")]
+                if p[0] > 0:
+                    p, l = [p[0] * 0.1, p[0] * 0.5] + p, [l[0] * 0.1, l[0] * 0.5] + l
+                return pg.PointIsotherm.from_isotherm(src, pressure=p + [p[-1] * 1.0001], loading=l + [l[-1]])
+            if key == "opts":                              # option containers handed over by the caller: they are arguments too
+                return {"kernel_units": {"loading_basis": "molar", "loading_unit": "mmol", "material_basis": "mass", "material_unit": "g", "pressure_mode": "relative"},
+                        "optimization_params": {"max_nfev": 2000}, "param_guess": {"K": 5.0, "n_m": 10.0}, "param_bounds": {"n_m": (0.0, 500.0)},
+                        "p_limits": [0.05, 0.3], "t_limits": [0.3, 0.8], "loading_points": [1.0, 1.5, 2.0]}
+            if key in ("temps_up", "temps_down"):         # the caller's LIST is an argument too: one in ascending, one in descending temperature order
+                return sorted([self["iso"], self["cold"]], key=lambda x: x.temperature, reverse=key == "temps_down")
+            raise KeyError(key)
+
+    def fresh(w):
+        """Identical fresh objects of a world, on a fresh registry with empty module caches."""
+        reset_registry()
+        return Objs(w)
+
+    def measured_world(f):
+        return {"kind": "measured", "name": f, "file": f, "class": "built-in, backend, every constant stored", "adsorbate": "nitrogen",
+                "miso": {"model": rng.choice(["Langmuir", "Toth"]), "n_m": rng.uniform(3, 12), "K": rng.uniform(1e-5, 1e-3), "t": rng.uniform(0.6, 1.0), "top": 9e4},
+                "miso2": {"model": rng.choice(["Henry", "DSLangmuir", "Freundlich", "Quadratic", "TemkinApprox", "JensenSeaton", "BET", "GAB"])}}
+
+    # user kernel files: a thinned copy of the internal kernel (fast), a second file of the SAME NAME with other content in another directory, a third name
+    tmp = tempfile.mkdtemp(prefix="pgv-c04-")
+    KERNEL_FILES = {}
+    try:
+        kin = pd.read_csv(str(pg.data.KERNELS["DFT-N2-77K-carbon-slit"]), index_col=0)
+        thin = kin.iloc[:, ::6]
+        for sub, fname, factor in (("a", "kernel.csv", 1.0), ("b", "kernel.csv", 0.55), ("a", "other.csv", 1.9)):
+            os.makedirs(os.path.join(tmp, sub), exist_ok=True)
+            path = os.path.join(tmp, sub, fname)
+            (thin * factor).to_csv(path)
+            KERNEL_FILES[f"{sub}/{fname}"] = path
+        _run_body(ck, locals())
+    finally:
+        shutil.rmtree(tmp, ignore_errors=True)
+
+
+def _run_body(ck, env):
+    """The checks proper (split from `run` only to keep the temporary kernel directory in a try/finally)."""
+    g = dict(env)
+    pg, rng, np, pd, CP = g["pg"], g["rng"], g["np"], g["pd"], g["CP"]
+    pgc, pgi, pgm, mt, pk = g["pgc"], g["pgi"], g["pgm"], g["mt"], g["pk"]
+    IsothermBaseModel, thermodynamic_backend = g["IsothermBaseModel"], g["thermodynamic_backend"]
+    fresh, reset_registry, registry_changes, mk_ads, all_defs, pool = g["fresh"], g["reset_registry"], g["registry_changes"], g["mk_ads"], g["all_defs"], g["pool"]
+    cp_read, cp_const, temps_of = g["cp_read"], g["cp_const"], g["temps_of"]
+    synthetic_world, measured_world, iast_ok, thorough, KERNEL_FILES = g["synthetic_world"], g["measured_world"], g["iast_ok"], g["thorough"], g["KERNEL_FILES"]
+    load = g["load"]
+
+    def quiet(f):
+        """Outcome of a call that prints / plots: the printed text is part of the outcome."""
+        import matplotlib.pyplot as plt
+        buf = io.StringIO()
+        try:
+            with contextlib.redirect_stdout(buf):
+                r = f()
+        finally:
+            plt.close("all")
+        return (canon(r) if not hasattr(r, "figure") else "axes", buf.getvalue())
+
+    # ------------------------------------------------------------------ thermodynamic accessors: how to call them and what the Lean model says they do
+    def accessors():
+        A = {}
+
+        def const(name, attr, cpname, via):
+            for c in (True, False):
+                A[f"{name}(calculate={c})"] = dict(call=lambda a, T, c=c, attr=attr: getattr(a, attr)(calculate=c), calc=c, key=name, kind="const", cp=cpname, via=via, keys=[name])
+        const("molar_mass", "molar_mass", "molar_mass", True)
+        const("p_triple", "p_triple", "PTRIPLE", False)
+        const("t_triple", "t_triple", "Ttriple", True)
+        const("p_critical", "p_critical", "p_critical", True)
+        const("t_critical", "t_critical", "T_critical", True)
+
+        def flash(label, call, key, steps, keys=None):
+            for c in (True, False):
+                A[f"{label}(calculate={c})"] = dict(call=lambda a, T, c=c, call=call: call(a, T, c), calc=c, key=key, kind="flash", steps=steps, keys=keys or [key])
+        flash("saturation_pressure", lambda a, T, c: a.saturation_pressure(T, calculate=c), "saturation_pressure", lambda T: [("QT", 0.0, T, "p")])
+        flash("pressure_saturation[bar]", lambda a, T, c: a.pressure_saturation(T, unit="bar", calculate=c), "saturation_pressure", lambda T: [("QT", 0.0, T, "p")])
+        flash("surface_tension", lambda a, T, c: a.surface_tension(T, calculate=c), "surface_tension", lambda T: [("QT", 0.0, T, "surface_tension")])
+        flash("liquid_density", lambda a, T, c: a.liquid_density(T, calculate=c), "liquid_density", lambda T: [("QT", 0.0, T, "rhomass")])
+        flash("liquid_molar_density", lambda a, T, c: a.liquid_molar_density(T, calculate=c), "liquid_molar_density", lambda T: [("QT", 0.0, T, "rhomolar")])
+        flash("gas_density", lambda a, T, c: a.gas_density(T, calculate=c), "gas_density", lambda T: [("QT", 1.0, T, "rhomass")])
+        flash("gas_molar_density", lambda a, T, c: a.gas_molar_density(T, calculate=c), "gas_molar_density", lambda T: [("QT", 1.0, T, "rhomolar")])
+        ek = ["enthalpy_liquefaction", "enthalpy_vaporisation"]
+        flash("enthalpy_vaporisation[temp]", lambda a, T, c: a.enthalpy_vaporisation(temp=T, calculate=c), "enthalpy_liquefaction",
+              lambda T: [("QT", 0.0, T, "hmolar"), ("QT", 1.0, T, "hmolar")], ek)
+        flash("enthalpy_liquefaction[temp]", lambda a, T, c: a.enthalpy_liquefaction(temp=T, calculate=c), "enthalpy_liquefaction",
+              lambda T: [("QT", 0.0, T, "hmolar"), ("QT", 1.0, T, "hmolar")], ek)
+        flash("enthalpy_vaporisation[press]", lambda a, T, c: a.enthalpy_vaporisation(press=1.5e5, calculate=c), "enthalpy_liquefaction",
+              lambda T: [("PQ", 1.5e5, 0.0, "hmolar"), ("PQ", 1.5e5, 1.0, "hmolar")], ek)
+        return A
+
+    ACC = accessors()
+
+    def ads_misc(a):
+        """Everything else that is public on an adsorbate."""
+        out = [a.to_dict(), str(a), repr(a), hash(a) == hash(a.name), a.formula, a == a.name, a == "no-such-gas-pgv", "x-" + a, a + "-x", quiet(a.print_info)[1]]
+        for k in ("backend_name", "molar_mass", "no-such-key"):
+            try:
+                out.append(a.get_prop(k))
+            except Exception as e:  # noqa
+                out.append(err_class(e))
+        try:
+            out.append(a.backend_name)
+        except Exception as e:  # noqa
+            out.append(err_class(e))
+        return out
+
+    def mat_misc(m):
+        out = [m.to_dict(), str(m), repr(m), m.density, m.molar_mass, m == m.name, quiet(m.print_info)[1]]
+        for k in ("density", "no-such-key"):
+            try:
+                out.append(m.get_prop(k))
+            except Exception as e:  # noqa
+                out.append(err_class(e))
+        return out
+
+    # ------------------------------------------------------------------ query catalogue: name -> f(objs) -> outcome
     def Q():
         qs = []
 
-        def add(name, f, weight=1.0):
-            qs.append((name, f, weight))
+        def add(name, f, weight=1.0, sweep=True, heavy=False):
+            qs.append((name, f, weight, sweep, heavy))
         for branch in (None, "ads", "des", "all"):
             add(f"pressure(branch={branch})", lambda o, b=branch: o["iso"].pressure(branch=b))
             add(f"loading(branch={branch}, mol/kg)", lambda o, b=branch: o["iso"].loading(branch=b, loading_unit="mol", material_unit="kg"))
         add("pressure(relative%)", lambda o: o["iso"].pressure(pressure_mode="relative%"))
         add("pressure(absolute, torr)", lambda o: o["iso"].pressure(pressure_mode="absolute", pressure_unit="torr"))
+        add("pressure(limits, indexed)", lambda o: o["iso"].pressure(branch="ads", limits=(0.05, 0.5), indexed=True))
         add("loading(cm3(STP)/g)", lambda o: o["iso"].loading(loading_unit="cm3(STP)"))
         add("loading(percent)", lambda o: o["iso"].loading(loading_basis="percent"))
+        add("loading(mass, mg)", lambda o: o["iso"].loading(loading_basis="mass", loading_unit="mg"))
+        add("loading(volume_gas)", lambda o: o["iso"].loading(loading_basis="volume_gas", loading_unit="cm3"))
+        add("loading(volume_liquid)", lambda o: o["iso"].loading(loading_basis="volume_liquid", loading_unit="cm3"))
+        add("loading(material volume)", lambda o: o["iso"].loading(material_basis="volume", material_unit="cm3"))
+        add("loading(material molar)", lambda o: o["iso"].loading(material_basis="molar", material_unit="mol"))
+        add("loading(fraction)", lambda o: o["iso"].loading(loading_basis="fraction"))
         add("has_branch(des)", lambda o: o["iso"].has_branch("des"))
         add("other_keys", lambda o: o["iso"].other_keys)
+        add("other_data(enthalpy)", lambda o: o["iso"].other_data("enthalpy", branch="ads"))
+        add("data(ads)", lambda o: o["iso"].data(branch="ads"))
+        add("equality", lambda o: (o["iso"] == o["iso"], o["iso"] == o["ref"]))
         for branch in ("ads", "des"):
             for kind in ("linear", "cubic", "slinear", "nearest"):
                 for fill in (None, (0.0, 20.0), (0.0, 3.5), "extrapolate"):
@@ -114,14 +519,14 @@ def run(ck):
                             p = iso.pressure(branch=b)
                             q = float((p[len(p) // 3] + p[len(p) // 3 + 1]) / 2) if xx == "in" else float(p.max() * 1.2)
                             return iso.loading_at(q, branch=b, interpolation_type=k, interp_fill=fl)
-                        add(f"loading_at({x}, {branch}, {kind}, fill={fill})", f, 0.25)
+                        add(f"loading_at({x}, {branch}, {kind}, fill={fill})", f, 0.25, sweep=False)
             for kind in ("linear", "slinear"):
                 for fill in (None, (0.0, 1.0)):
                     def g(o, b=branch, k=kind, fl=fill):
                         iso = o["iso"]
                         l = iso.loading(branch=b)
                         return iso.pressure_at(float((l[3] + l[4]) / 2), branch=b, interpolation_type=k, interp_fill=fl)
-                    add(f"pressure_at({branch}, {kind}, fill={fill})", g, 0.5)
+                    add(f"pressure_at({branch}, {kind}, fill={fill})", g, 0.5, sweep=False)
             for fill in (None, (0.0, 25.0), (0.0, 12.0)):
                 for where in ("below", "in", "above"):
                     def s(o, b=branch, fl=fill, w=where):
@@ -129,55 +534,132 @@ def run(ck):
                         p = iso.pressure(branch=b)
                         q = {"below": float(p.min() * 0.5), "in": float(np.median(p)), "above": float(p.max() * 1.3)}[w]
                         return iso.spreading_pressure_at(q, branch=b, interp_fill=fl)
-                    add(f"spreading_pressure_at({where}, {branch}, fill={fill})", s, 0.4)
+                    add(f"spreading_pressure_at({where}, {branch}, fill={fill})", s, 0.4, sweep=False)
         add("loading_at(units)", lambda o: o["iso"].loading_at(0.2, pressure_mode="relative", loading_unit="mol", material_unit="kg"))
         add("loading_at(kPa)", lambda o: o["iso"].loading_at(20.0, pressure_unit="kPa"))
+        add("loading_at(volume_liquid)", lambda o: o["iso"].loading_at(float(np.median(o["iso"].pressure(branch="ads"))), loading_basis="volume_liquid", loading_unit="cm3"))
+        add("pressure_at(relative out)", lambda o: o["iso"].pressure_at(float(np.median(o["iso"].loading(branch="ads"))), pressure_mode="relative"))
+        add("spreading_pressure_at(in, default)", lambda o: o["iso"].spreading_pressure_at(float(np.median(o["iso"].pressure(branch="ads")))))
         add("to_json", lambda o: o["iso"].to_json())
         add("to_csv", lambda o: o["iso"].to_csv())
         add("to_aif", lambda o: o["iso"].to_aif())
         add("to_dict", lambda o: o["iso"].to_dict())
         add("str", lambda o: str(o["iso"]))
+        add("print_info", lambda o: quiet(lambda: o["iso"].print_info())[1], 0.1, heavy=True)
+        add("from_isotherm", lambda o: pg.PointIsotherm.from_isotherm(o["iso"], pressure=[1.0, 2.0, 3.0], loading=[1.0, 1.5, 1.7]).to_dict(), 0.3)
+        add("from_modelisotherm", lambda o: pg.PointIsotherm.from_modelisotherm(o["miso"], pressure_points=[1e3, 1e4, 5e4]).to_dict(), 0.3)
+        add("from_modelisotherm(points of iso)", lambda o: pg.PointIsotherm.from_modelisotherm(o["miso2"], pressure_points=o["iso"]).to_dict(), 0.3)
+        # ---- every function exported by pygaps.characterisation
         add("area_BET", lambda o: pgc.area_BET(o["iso"]), 0.8)
         add("area_BET(limits)", lambda o: pgc.area_BET(o["iso"], p_limits=(0.05, 0.3)), 0.5)
+        add("area_BET(des)", lambda o: pgc.area_BET(o["iso"], branch="des"), 0.3)
+        add("area_BET_raw", lambda o: pgc.area_BET_raw(o["arrays"]["pressure"], o["arrays"]["loading"], 0.162), 0.3)
         add("area_langmuir", lambda o: pgc.area_langmuir(o["iso"]), 0.6)
+        add("area_langmuir_raw", lambda o: pgc.area_langmuir_raw(o["arrays"]["pressure"], o["arrays"]["loading"], 0.162, p_limits=(0.05, 0.9)), 0.3)
         add("t_plot", lambda o: pgc.t_plot(o["iso"]), 0.6)
+        add("t_plot(Halsey, limits)", lambda o: pgc.t_plot(o["iso"], thickness_model="Halsey", t_limits=(0.3, 0.8)), 0.4)
+        add("t_plot(zero thickness)", lambda o: pgc.t_plot(o["iso"], thickness_model="zero thickness"), 0.2)
         add("t_plot(SiO2 ref)", lambda o: pgc.t_plot(o["iso"], thickness_model="SiO2 Jaroniec/Kruk/Olivier"), 0.5)
         add("t_plot(carbon ref)", lambda o: pgc.t_plot(o["iso"], thickness_model="carbon black Kruk/Jaroniec/Gadkaree"), 0.4)
+        add("t_plot(reference isotherm)", lambda o: pgc.t_plot(o["iso"], thickness_model=o["ref"]), 0.3)
+        add("t_plot_raw", lambda o: pgc.t_plot_raw(o["arrays"]["loading"], o["arrays"]["pressure"], mt.get_thickness_model("Halsey"), 0.8, 28.0), 0.3)
+        add("thickness models", lambda o: [mt.get_thickness_model(n)(np.array([0.05, 0.2, 0.6, 0.9])) for n in sorted(mt._THICKNESS_MODELS)], 0.4)
         add("alpha_s", lambda o: pgc.alpha_s(o["iso"], reference_isotherm=o["ref"]), 0.6)
+        add("alpha_s(reference area, des ref)", lambda o: pgc.alpha_s(o["iso"], reference_isotherm=o["ref"], reference_area=150.0, branch_ref="des", reducing_pressure=0.3), 0.4)
+        add("alpha_s(langmuir area)", lambda o: pgc.alpha_s(o["iso"], reference_isotherm=o["ref"], reference_area="langmuir"), 0.3)
+        add("alpha_s_raw", lambda o: pgc.alpha_s_raw(o["arrays"]["loading"], o["arrays"]["ref_loading"], float(o["arrays"]["ref_loading"][len(o["arrays"]["ref_loading"]) // 2]), 120.0, 0.8, 28.0), 0.3)
+        add("alpha_s(reference over the same range)", lambda o: pgc.alpha_s(o["iso"], reference_isotherm=o["ref_same"]), 0.5)
+        add("alpha_s(same range, caller's limits)", lambda o: pgc.alpha_s(o["iso"], reference_isotherm=o["ref_same"], reference_area=200.0, t_limits=o["opts"]["t_limits"]), 0.3)
+        add("area_BET(caller's limit list)", lambda o: pgc.area_BET(o["iso"], p_limits=o["opts"]["p_limits"]), 0.3)
+        add("t_plot(caller's limit list)", lambda o: pgc.t_plot(o["iso"], thickness_model="Halsey", t_limits=o["opts"]["t_limits"]), 0.3)
+        add("psd_dft(user kernel, caller's kernel_units)", lambda o: pgc.psd_dft(o["iso"], kernel=o["kernel"]["a/other.csv"], kernel_units=o["opts"]["kernel_units"]), 0.2)
+        add("initial_henry_virial(caller's optimization_params)", lambda o: pgc.initial_henry_virial(o["iso"], optimization_params=o["opts"]["optimization_params"]), 0.2)
+        add("isosteric_enthalpy(caller's loading list)", lambda o: pgc.isosteric_enthalpy(o["temps_up"], loading_points=o["opts"]["loading_points"]), 0.2)
+        add("model_iso(Langmuir, caller's guess / bounds / options)", lambda o: pgm.model_iso(o["iso"], model="Langmuir", param_guess=o["opts"]["param_guess"],
+                                                                                   param_bounds=o["opts"]["param_bounds"], optimization_params=o["opts"]["optimization_params"]), 0.3)
         add("dr_plot", lambda o: pgc.dr_plot(o["iso"]), 0.5)
         add("da_plot", lambda o: pgc.da_plot(o["iso"], exp=2.3), 0.5)
+        add("da_plot(exponent search)", lambda o: pgc.da_plot(o["iso"], p_limits=(0.0, 0.2)), 0.3)
         add("psd_mesoporous(BJH)", lambda o: pgc.psd_mesoporous(o["iso"], psd_model="BJH", pore_geometry="cylinder"), 0.5)
         add("psd_mesoporous(pygaps-DH, des)", lambda o: pgc.psd_mesoporous(o["iso"], psd_model="pygaps-DH", branch="des", pore_geometry="slit"), 0.4)
+        add("psd_mesoporous(DH, ads, Halsey, Kelvin-KJS)", lambda o: pgc.psd_mesoporous(o["iso"], psd_model="DH", branch="ads", thickness_model="Halsey", kelvin_model="Kelvin-KJS"), 0.3)
+        add("psd_mesoporous(SiO2 thickness)", lambda o: pgc.psd_mesoporous(o["iso"], thickness_model="SiO2 Jaroniec/Kruk/Olivier"), 0.3)
         add("psd_microporous(HK)", lambda o: pgc.psd_microporous(o["iso"], psd_model="HK", pore_geometry="slit"), 0.3)
-        add("psd_dft", lambda o: pgc.psd_dft(o["iso"], bspline_order=2), 0.25)
+        add("psd_microporous(HK-CY, cylinder)", lambda o: pgc.psd_microporous(o["iso"], psd_model="HK-CY", pore_geometry="cylinder"), 0.2)
+        add("psd_dft(internal kernel)", lambda o: pgc.psd_dft(o["iso"], bspline_order=2), 0.05, heavy=True)
+        add("psd_dft(user kernel)", lambda o: pgc.psd_dft(o["iso"], kernel=o["kernel"]["a/kernel.csv"], bspline_order=2), 0.3)
+        add("psd_dft(user kernel 2, des)", lambda o: pgc.psd_dft(o["iso"], kernel=o["kernel"]["a/other.csv"], branch="des"), 0.2)
         add("initial_henry_slope", lambda o: pgc.initial_henry_slope(o["iso"], max_adjrms=0.1), 0.5)
         add("initial_henry_virial", lambda o: pgc.initial_henry_virial(o["iso"]), 0.3)
-        add("model_iso(Langmuir)", lambda o: pgm.model_iso(o["iso"], model="Langmuir"), 0.4)
-        add("model_iso(guess)", lambda o: pgm.model_iso(o["iso"], model=["Henry", "Langmuir", "Toth"]), 0.2)
+        add("initial_enthalpy_comp", lambda o: pgc.initial_enthalpy_comp(o["iso"], "enthalpy"), 0.3)
+        add("initial_enthalpy_point", lambda o: pgc.initial_enthalpy_point(o["iso"], "enthalpy"), 0.3)
+        add("isosteric_enthalpy", lambda o: pgc.isosteric_enthalpy(o["temps_up"]), 0.4)
+        add("isosteric_enthalpy(points, descending list)", lambda o: pgc.isosteric_enthalpy(o["temps_down"], loading_points=[float(x) for x in np.quantile(o["iso"].loading(branch="ads"), [0.3, 0.5, 0.7])]), 0.3)
+        add("isosteric_enthalpy_raw", lambda o: pgc.isosteric_enthalpy_raw(np.array([o["arrays"]["pressure"][2:8], o["arrays"]["pressure"][2:8] * 1.7]), [o["iso"].temperature, o["iso"].temperature + 10.0]), 0.3)
         add("whittaker(Toth)", lambda o: pgc.enthalpy_sorption_whittaker(o["iso"], model="Toth"), 0.3)
-        # another isotherm of the same adsorbate at another temperature (shared thermodynamic state)
+        add("whittaker(Langmuir, loadings)", lambda o: pgc.enthalpy_sorption_whittaker(o["iso"], model="Langmuir", loading=[float(x) for x in np.quantile(o["iso"].loading(branch="ads"), [0.2, 0.5, 0.8])]), 0.4)
+        add("whittaker(model isotherm)", lambda o: pgc.enthalpy_sorption_whittaker(o["miso"], loading=[0.5, 1.0, 2.0]), 0.4)
+        add("whittaker(model isotherm, wrong unit)", lambda o: pgc.enthalpy_sorption_whittaker(o["miso2"]), 0.1)
+        add("whittaker raw placeholder", lambda o: pgc.enth_sorp_whittaker.enthalpy_sorption_whittaker_raw(p=1.0, p_sat=2.0, K=1.0, n=1.0, n_m=2.0), 0.05)
+        # ---- fitting and model isotherms
+        add("model_iso(Langmuir)", lambda o: pgm.model_iso(o["iso"], model="Langmuir"), 0.4)
+        add("model_iso(Toth, des)", lambda o: pgm.model_iso(o["iso"], model="Toth", branch="des"), 0.2)
+        add("model_iso(guess)", lambda o: pgm.model_iso(o["iso"], model=["Henry", "Langmuir", "Toth"]), 0.2, heavy=True)
+        for which in ("miso", "miso2"):
+            add(f"{which}.loading_at", lambda o, w=which: o[w].loading_at(o[w].model.pressure_range[1] * 0.4), 0.3)
+            add(f"{which}.pressure_at", lambda o, w=which: o[w].pressure_at(0.7), 0.3)
+            add(f"{which}.spreading_pressure_at", lambda o, w=which: o[w].spreading_pressure_at(o[w].model.pressure_range[1] * 0.4), 0.3)
+            add(f"{which}.pressure/loading", lambda o, w=which: (o[w].pressure(5), o[w].loading(5)), 0.2)
+            add(f"{which}.exports", lambda o, w=which: (o[w].to_dict(), o[w].to_json(), str(o[w]), o[w].model.to_dict(), str(o[w].model), repr(o[w].model)), 0.2)
+        add("base model spreading_pressure", lambda o: IsothermBaseModel.spreading_pressure(o["miso"].model, 1.0), 0.1)
+        # ---- another isotherm of the same adsorbate at another temperature (shared thermodynamic state), the adsorbate and the material themselves
         add("cold.pressure(relative)", lambda o: o["cold"].pressure(pressure_mode="relative"), 1.0)
         add("cold.loading(volume_liquid)", lambda o: o["cold"].loading(loading_basis="volume_liquid", loading_unit="cm3"), 0.7)
         add("adsorbate.saturation_pressure(T)", lambda o: o["iso"].adsorbate.saturation_pressure(o["iso"].temperature), 1.0)
         add("adsorbate.liquid_density(T)", lambda o: o["iso"].adsorbate.liquid_density(o["iso"].temperature), 0.6)
         add("adsorbate.gas_density(90 K)", lambda o: o["iso"].adsorbate.gas_density(90.0), 0.6)
         add("adsorbate.enthalpy_vaporisation(press)", lambda o: o["iso"].adsorbate.enthalpy_vaporisation(press=2e5), 0.5)
+        for an, spec in ACC.items():
+            add(f"adsorbate.{an} at T", lambda o, s=spec: s["call"](o["iso"].adsorbate, o["iso"].temperature), 0.12)
+            if spec["kind"] == "flash":
+                add(f"adsorbate.{an} at another T", lambda o, s=spec: s["call"](o["iso"].adsorbate, o["T_other"]), 0.06)
+        add("adsorbate.both intensive variables", lambda o: o["iso"].adsorbate.enthalpy_liquefaction(temp=80.0, press=1e5), 0.1)
+        add("adsorbate.no intensive variable", lambda o: o["iso"].adsorbate.enthalpy_liquefaction(), 0.1)
+        add("adsorbate.misc", lambda o: ads_misc(o["iso"].adsorbate), 0.3)
+        add("material.misc", lambda o: mat_misc(o["iso"].material), 0.3)
+        add("Adsorbate.find / Material by name", lambda o: (pg.Adsorbate.find(o["iso"].adsorbate.name).name, pg.Adsorbate.find(o["iso"].adsorbate.alias[0]).name), 0.2)
         if iast_ok:
-            add("iast_point", lambda o: pgi.iast_point(o["pair"], gas_mole_fraction=[0.5, 0.5], total_pressure=1.0), 0.3)
-            add("iast_binary_vle", lambda o: pgi.iast_binary_vle(o["pair"], total_pressure=1.0, npoints=4), 0.15)
+            add("iast_point", lambda o: pgi.iast_point(o["pair"], partial_pressures=[0.5, 0.5]), 0.3)
+            add("iast_point_fraction", lambda o: pgi.iast_point_fraction(o["pair"], gas_mole_fraction=[0.4, 0.6], total_pressure=1.0), 0.2)
+            add("iast_point(des, fill)", lambda o: pgi.iast_point(o["pair"], partial_pressures=[0.3, 0.2], branch="des"), 0.2)
+            add("iast_binary_vle", lambda o: pgi.iast_binary_vle(o["pair"], total_pressure=1.0, npoints=4), 0.15, heavy=True)
+            add("iast_binary_svp", lambda o: pgi.iast_binary_svp(o["pair"], mole_fractions=[0.5, 0.5], pressures=[0.2, 0.8]), 0.15)
             add("reverse_iast", lambda o: pgi.reverse_iast(o["pair"], adsorbed_mole_fractions=[0.3, 0.7], total_pressure=1.0), 0.2)
+            add("iast_point(model isotherms)", lambda o: pgi.iast_point([o["miso2"], o["miso2"]], partial_pressures=[0.2, 0.3]), 0.2)
         return qs
 
     queries = Q()
-    weights = [w for _, _, w in queries]
+    weights = [q[2] for q in queries]
+    import time as _time
+    timing, _t = {}, [_time.time()]
 
-    def fresh(sample):
-        clear_module_caches(pg)
-        iso = load(sample)
-        ref = load("SiO2 N2 77.355.json")
-        cold = load(sample)
-        cold._temperature = 87.3          # same adsorbate, other temperature (constructed before any query is issued)
-        return {"iso": iso, "ref": ref, "cold": cold, "pair": load_iast() if iast_ok else None}
+    def lap(name):
+        timing[name] = round(timing.get(name, 0.0) + _time.time() - _t[0], 2)
+        _t[0] = _time.time()
+    ck.cov["section_seconds"] = timing
+    # is every function exported by pygaps.characterisation in the catalogue?  (a new export must not stay outside silently)
+    exported = sorted(n for n, v in vars(pgc).items() if callable(v) and not n.startswith("_") and getattr(v, "__module__", "").startswith("pygaps.characterisation"))
+    reached_exports = set()
+    _orig = {}
+    for n in exported:
+        def wrap(fn, n=n):
+            def w(*a, **k):
+                reached_exports.add(n)
+                return fn(*a, **k)
+            w.__wrapped__ = fn
+            return w
+        _orig[n] = getattr(pgc, n)
+        setattr(pgc, n, wrap(_orig[n]))
 
     def outcome(f, objs):
         try:
@@ -186,44 +668,105 @@ def run(ck):
         except Exception as e:  # noqa
             return ("err", err_class(e))
 
-    nseq = ck.n(22, 160)
+    def snap_objs(objs):
+        return {k: snap_any(pg, v, objs.ids == "all" or k == "iso") for k, v in list(objs.items()) if k not in ("T_other", "kernel")}
+
     cache_fresh = {}
-    for si in range(nseq):
-        sample = rng.choice(SAMPLES)
-        objs = fresh(sample)
-        length = rng.randint(2, ck.n(8, 14))
-        seq = rng.choices(queries, weights=weights, k=length)
-        # a target query that differs from an earlier one in ONE cache-key component is the interesting pair
+
+    def describe(world):
+        """Everything needed to rebuild the objects of a world by hand (goes into the replay file)."""
+        if world["kind"] == "measured":
+            return {"isotherm": "docs/examples/data/characterisation/" + world["file"], "model isotherms (Pa / bar)": [world["miso"], world["miso2"]]}
+        return {"adsorbate": all_defs[world["adsorbate"]], "temperature": world["T"], "second temperature": world["T2"], "units": world["units"], "material": world["material"],
+                "pressure": world["pressure"], "loading": world["loading"], "branch": world["branch"], "model isotherms (Pa / bar)": [world["miso"], world["miso2"]]}
+
+    def run_history(world, seq, tag, bucket_prefix="query:", ids="all"):
+        """One history on fresh objects of `world`; the reference outcomes (same call FIRST on identical fresh objects) are computed
+        beforehand so that nothing disturbs the objects under test while the history runs."""
+        for name, f, *_ in seq:
+            key = (world["name"], name)
+            if key not in cache_fresh:
+                cache_fresh[key] = outcome(f, fresh(world))
+        objs = fresh(world)
+        objs.ids = ids
         history = []
-        for qi, (name, f, _) in enumerate(seq):
-            before = {k: snapshot(pg, v) for k, v in objs.items() if k != "pair"}
-            if objs["pair"]:
-                before["pair"] = [snapshot(pg, x) for x in objs["pair"]]
+        for qi, (name, f, *_) in enumerate(seq):
             out = outcome(f, objs)
-            after = {k: snapshot(pg, v) for k, v in objs.items() if k != "pair"}
-            if objs["pair"]:
-                after["pair"] = [snapshot(pg, x) for x in objs["pair"]]
+            after = snap_objs(objs)
+            before = {k: objs.snaps[k] for k in after}       # objects built during this call: their snapshot at construction
             sig = {"query": name}
-            ck.count((sample, tuple(history), name), nontrivial=qi > 0, bucket="query:" + name.split("(")[0] + ":" + out[0],
-                     sample={"sample": sample, "history": list(history), "query": name, "outcome": str(out)[:120]} if (si * 7 + qi) % 53 == 0 else None)
+            ck.count((world["name"], tuple(history), name), nontrivial=qi > 0, bucket=bucket_prefix + name.split("(")[0] + ":" + out[0],
+                     sample={"world": world["name"], "history": list(history[-4:]), "query": name, "outcome": str(out)[:120]} if (tag * 7 + qi) % 53 == 0 else None)
+            ck.cov["distribution"]["world:" + world["class"]] = ck.cov["distribution"].get("world:" + world["class"], 0) + 1
             if before != after:
                 changed = [k for k in before if before[k] != after[k]]
                 ck.fail_case({**sig, "clause": "argument modified by a read-only call", "object": changed[0]},
-                             {"sample": sample, "history": list(history), "changed": {k: _first_diff(before[k], after[k]) for k in changed}})
-            # the same call issued first on an identical fresh object
-            key = (sample, name)
-            if key not in cache_fresh:
-                cache_fresh[key] = outcome(f, fresh(sample))
-            ref_out = cache_fresh[key]
+                             {"world": world["name"], "history": list(history), "changed": {k: _first_diff(before[k], after[k]) for k in changed}, "world_definition": describe(world)})
+            if bucket_prefix == "sweep:":
+                ck.cov.setdefault("sweep_outcomes", {}).setdefault(world["name"], {})[name] = out[0] if out[0] == "ok" else out[1]
+            ref_out = cache_fresh[(world["name"], name)]
             if out != ref_out:
                 ck.fail_case({**sig, "clause": "outcome depends on the query history", "last_query": history[-1] if history else None},
-                             {"sample": sample, "history": list(history), "after_history": str(out)[:300], "fresh": str(ref_out)[:300]})
+                             {"world": world["name"], "history": list(history), "after_history": str(out)[:300], "fresh": str(ref_out)[:300], "world_definition": describe(world)})
             history.append(name)
-    # ------------------------------------------------------------------ targeted pairs: two queries whose cache keys differ in exactly ONE component
-    import itertools
+            objs.snaps = after
+        for k, first in objs.first_ids.items():
+            if _ids_of(objs[k]) != first:
+                ck.fail_case({"query": "sequence", "clause": "argument modified by a read-only call", "object": k},
+                             {"world": world["name"], "history": list(history), "changed": {"identifier": [str(first), str(_ids_of(objs[k]))]}})
+        reg = registry_changes()
+        if reg:
+            ck.fail_case({"query": "sequence", "clause": "registered adsorbate modified by read-only calls", "object": reg[0]["adsorbate"]},
+                         {"world": world["name"], "history": list(history), "changed": reg[:3]})
+
+    # ------------------------------------------------------------------ worlds of this run
+    measured = [measured_world(f) for f in SAMPLES]
+    synthetic = [synthetic_world(label, name, i) for i, (label, name) in enumerate(pool)]
+    ck.cov["adsorbate_pool"] = [{"class": l, "adsorbate": n, "stored_keys": [k for k in THERMO_KEYS if k in all_defs[n]]} for l, n in pool]
+
+    # ------------------------------------------------------------------ (1) sweep: every catalogue entry at least once per world class, as ONE long history
+    sweep_worlds = (measured if thorough else [rng.choice(measured)]) + synthetic
+    for wi, world in enumerate(sweep_worlds):
+        seq = [q for q in queries if q[3] and not q[4]]
+        if thorough or wi == 0:
+            seq += [q for q in queries if q[4] and (thorough or q[0] != "psd_dft(internal kernel)")]   # the slow entries once per run (quick) / once per world (thorough);
+            # the full internal kernel (3 s per fit) in the quick tier only through the random histories and the loader pairs of section 6
+        # adsorbates with a backend but without a stored key must meet the analyses that ask for that key: nothing to arrange, every world gets every entry
+        rng.shuffle(seq)
+        run_history(world, seq, 1000 + wi, bucket_prefix="sweep:", ids="iso")
+    lap("1 sweep")
+    # ------------------------------------------------------------------ (2) seeded random histories
+    nseq = ck.n(22, 160)
+    worlds = measured + synthetic
+    for si in range(nseq):
+        world = rng.choice(measured) if rng.random() < 0.6 else rng.choice(synthetic)
+        length = rng.randint(2, ck.n(8, 14))
+        seq = rng.choices(queries, weights=weights, k=length)
+        run_history(world, seq, si)
+    lap("2 random histories")
+    for n in exported:
+        setattr(pgc, n, _orig[n])
+    missing = [n for n in exported if n not in reached_exports]
+    ck.cov["characterisation_exports"] = {"exported": exported, "not_called_in_this_run": missing}
+    if missing:
+        ck.broken.append({"step": "catalogue completeness", "what": "functions exported by pygaps.characterisation that no query of the catalogue calls: " + ", ".join(missing)})
+
+    # ------------------------------------------------------------------ (3) targeted pairs: two queries whose cache keys differ in exactly ONE component
+    trace = []          # (driver line, expectation checker, description) for the Lean cache model
+
+    def real_interp(iso):
+        def key(c):
+            return "~" if c is None else f"{c.interp_branch},{c.interp_kind},{fill_tok(c.interp_fill)}"
+        return key(iso.l_interpolator), key(iso.p_interpolator)
+
+    def expect_interp(iso, what):
+        l, p = real_interp(iso)
+        return lambda reply, l=l, p=p: (f"l={l} p={p} " in reply.split("|")[-1] + " ", f"real caches l={l} p={p}")
+
+    from scipy.interpolate import interp1d
     branches, kinds, fills = ("ads", "des"), ("linear", "cubic"), (None, (0.0, 20.0), (0.0, 3.5))
     keys = list(itertools.product(branches, kinds, fills))
-    for sample in (SAMPLES if thorough else rng.sample(SAMPLES, 2)):
+    for world in (measured if thorough else rng.sample(measured, 2)) + rng.sample(synthetic, ck.n(1, 3)):
         for fn in ("loading_at", "pressure_at", "spreading_pressure_at"):
             fresh_out = {}
 
@@ -239,26 +782,55 @@ def run(ck):
                 if fn == "loading_at":
                     return iso.loading_at(x, branch=b, interpolation_type=k, interp_fill=fl)
                 return iso.spreading_pressure_at(x, branch=b, interp_fill=fl)
+
+            buildable_memo = {}
+
+            def buildable(fn, key):
+                """Does scipy build this interpolator on this branch of this world?  (the residue B of the Lean model, asked directly)"""
+                b, k, fl = key
+                if (fn, key) not in buildable_memo:
+                    src = fresh(world)["iso"]
+                    xs, ys = (src.loading(branch=b), src.pressure(branch=b)) if fn == "pressure_at" else (src.pressure(branch=b), src.loading(branch=b))
+                    try:
+                        interp1d(xs, ys, kind=k) if fl is None else interp1d(xs, ys, kind=k, fill_value=fl, bounds_error=False)
+                        buildable_memo[(fn, key)] = True
+                    except Exception:
+                        buildable_memo[(fn, key)] = False
+                return "T" if buildable_memo[(fn, key)] else "F"
+
+            def line(fn, key, out):
+                b, k, fl = key
+                if fn == "loading_at":
+                    return f"L {b} {k} {fill_tok(fl)} {buildable(fn, key)}"
+                if fn == "pressure_at":
+                    return f"P {b} {k} {fill_tok(fl)} {buildable(fn, key)}"
+                return f"S {b} {fill_tok(fl)} {'T' if out == ('err', 'calc') else 'F'} {buildable('loading_at', (b, 'linear', fl))}"
             for k1, k2 in itertools.product(keys, keys):
                 if sum(a != b for a, b in zip(k1, k2)) != 1:
                     continue
                 if fn == "spreading_pressure_at" and k1[1] != "linear":
                     continue
                 for where in ("in", "out"):
-                    objs = fresh(sample)
-                    first_fn = "loading_at" if fn == "spreading_pressure_at" else fn
-                    outcome(lambda o: call(o, k1, where, fn=first_fn), objs)
-                    out = outcome(lambda o: call(o, k2, where), objs)
                     if (k2, where) not in fresh_out:
-                        fresh_out[(k2, where)] = outcome(lambda o: call(o, k2, where), fresh(sample))
-                    ck.count((sample, fn, k1, k2, where), bucket="targeted-pair:" + fn)
+                        fresh_out[(k2, where)] = outcome(lambda o: call(o, k2, where), fresh(world))
+                    objs = fresh(world)
+                    first_fn = "loading_at" if fn == "spreading_pressure_at" else fn
+                    out1 = outcome(lambda o: call(o, k1, where, fn=first_fn), objs)
+                    trace.append(("reset", None, None))
+                    trace.append((line(first_fn, k1, out1), expect_interp(objs["iso"], first_fn), f"{world['name']}: {first_fn}{k1}"))
+                    out = outcome(lambda o: call(o, k2, where), objs)
+                    k2m = (k2[0], "linear", k2[2]) if fn == "spreading_pressure_at" else k2
+                    trace.append((line(fn, k2m, out), expect_interp(objs["iso"], fn), f"{world['name']}: {first_fn}{k1} then {fn}{k2}"))
+                    ck.count((world["name"], fn, k1, k2, where), bucket="targeted-pair:" + fn)
                     if out != fresh_out[(k2, where)]:
                         ck.fail_case({"query": f"{fn}{k2}", "clause": "outcome depends on the query history", "last_query": f"{first_fn}{k1}"},
-                                     {"sample": sample, "where": where, "after_history": str(out)[:200], "fresh": str(fresh_out[(k2, where)])[:200]})
-    # ------------------------------------------------------------------ targeted triples on the shared thermodynamic state: a(T1), b(T2), a(T1)
+                                     {"world": world["name"], "where": where, "after_history": str(out)[:200], "fresh": str(fresh_out[(k2, where)])[:200]})
+    lap("3 interpolation pairs")
+    # ------------------------------------------------------------------ (4) targeted triples on the shared thermodynamic state: a(T1), b(T2), a(T1)
     acc = {"saturation_pressure": lambda a, T: a.saturation_pressure(T), "liquid_density": lambda a, T: a.liquid_density(T), "gas_density": lambda a, T: a.gas_density(T),
            "liquid_molar_density": lambda a, T: a.liquid_molar_density(T), "surface_tension": lambda a, T: a.surface_tension(T),
            "enthalpy_vaporisation": lambda a, T: a.enthalpy_vaporisation(temp=T), "enthalpy_vaporisation(press)": lambda a, T: a.enthalpy_vaporisation(press=1.5e5)}
+    reset_registry()
     for gas in (("N2", 77.355, 100.0), ("CO2", 230.0, 290.0)) if thorough else (("N2", 77.355, 100.0),):
         ads = pg.Adsorbate.find(gas[0])
         freshv = {}
@@ -291,40 +863,250 @@ def run(ck):
             if v != freshv[n1]:
                 ck.fail_case({"query": f"adsorbate.{n1}", "clause": "outcome depends on the query history", "last_query": f"adsorbate.{n2} at the same temperature"},
                              {"adsorbate": gas[0], "T": gas[1], "after_history": v, "fresh": freshv[n1]})
+    # ------------------------------------------------------------------ (5) every ordered pair of accessors (calculate True / False) on every class of adsorbate
+    def acc_outcome(spec, a, T):
+        try:
+            return ("ok", canon(spec["call"](a, T)))
+        except Exception as e:  # noqa
+            return ("err", err_class(e))
+
+    def real_thermo(a):
+        st = a._state
+        if st is None:
+            return None
+        try:
+            return (st.T(), st.Q(), st.p())
+        except Exception:
+            return "unreadable"
+
+    def model_line(spec, d, T):
+        """The call as a line for the Lean model (Thermo.Query) — the residue F is CoolProp asked through a brand-new state."""
+        b = d.get("backend_name")
+        stored = any(d.get(k) is not None for k in spec["keys"])
+        if not spec["calc"]:
+            return f"K {spec['key']} {'T' if stored else 'F'}", None
+        if spec["kind"] == "const":
+            avail = b is not None and (cp_const(b, "PTRIPLE") is not None if spec["cp"] == "PTRIPLE" else cp_read_const(b, spec["cp"]))
+            return f"C {spec['cp']} {spec['key']} {'T' if stored else 'F'} {'T' if spec['via'] else 'F'} {'T' if avail else 'F'}", None
+        steps, last = [], None
+        for pair, v1, v2, name in spec["steps"](T):
+            ok = cp_read(b, pair, v1, v2, name) is not None
+            steps.append(f"{pair},{v1!r},{v2!r},{name},{'T' if ok else 'F'}")
+            last = (pair, v1, v2) if ok else "failed"
+            if not ok:
+                break
+        return f"A {spec['key']} {'T' if stored else 'F'} [{';'.join(steps)}]", last
+
+    def cp_read_const(b, name):
+        try:
+            st = CP.AbstractState(thermodynamic_backend(), b)
+            return math.isfinite(getattr(st, name)())
+        except BaseException:
+            return False
+
+    def expect_thermo(a, spec, out, last):
+        real = real_thermo(a)
+
+        def chk(reply, real=real, out=out, last=last):
+            head, dump = reply.split("|")[0].strip(), reply.split("|")[-1]
+            th = dump.split("th=")[1].split(" ")[0]
+            kind_model = "ok" if head.startswith("ok") else "err"
+            if kind_model != out[0] or (out[0] == "err" and out[1] != "calc"):
+                return False, f"kind of outcome: model {head!r}, real {out}"
+            if last in (None, "failed") or real in (None, "unreadable"):
+                return True, ""
+            pair, v1, v2 = last
+            T_, Q_, p_ = real
+            ok = (abs(T_ - v2) <= 1e-9 * abs(v2) and abs(Q_ - v1) <= 1e-12) if pair == "QT" else (abs(p_ - v1) <= 1e-9 * abs(v1) and abs(Q_ - v2) <= 1e-12)
+            return ok and th == f"{pair},{v1!r},{v2!r}", f"state after the call: model th={th}, real (T, Q, p)={real}"
+        return lambda reply: chk(reply)
+
+    names = list(ACC)
+    for label, ads_name in pool:
+        d = all_defs[ads_name]
+        b = d.get("backend_name")
+        T1, T2, T3 = temps_of(b) if b is not None else (298.15, 323.15, 400.0)
+        freshv = {}
+        for n1 in names:
+            for T in (T1, T3):
+                freshv[(n1, T)] = acc_outcome(ACC[n1], mk_ads(d), T)
+        pairs = list(itertools.product(names, names))
+        if not thorough:
+            pairs = rng.sample(pairs, min(len(pairs), ck.n(450, len(pairs))))
+        for n1, n2 in pairs:
+            a = mk_ads(d)
+            s0 = snap_ads(a)
+            Tb = rng.choice([T1, T2, T3])
+            Ta = T1 if rng.random() < 0.8 else T3
+            outb = acc_outcome(ACC[n2], a, Tb)
+            s1 = snap_ads(a)
+            lb, lastb = model_line(ACC[n2], d, Tb)
+            trace.append(("reset", None, None))
+            trace.append((lb, expect_thermo(a, ACC[n2], outb, lastb), f"{ads_name}: {n2} at {Tb}"))
+            outa = acc_outcome(ACC[n1], a, Ta)
+            s2 = snap_ads(a)
+            la, lasta = model_line(ACC[n1], d, Ta)
+            trace.append((la, expect_thermo(a, ACC[n1], outa, lasta), f"{ads_name}: {n2} at {Tb} then {n1} at {Ta}"))
+            ck.count((ads_name, n1, n2, Ta, Tb), bucket="accessor-pair:" + label)
+            for (sa, sb, nm, TT) in ((s0, s1, n2, Tb), (s1, s2, n1, Ta)):
+                if sa != sb:
+                    ck.fail_case({"query": f"adsorbate.{nm}", "clause": "argument modified by a read-only call", "object": "adsorbate"},
+                                 {"adsorbate": ads_name, "class": label, "T": TT, "definition": {k: v for k, v in d.items()}, "changed": _first_diff(sa, sb)})
+            if outa != freshv[(n1, Ta)]:
+                ck.fail_case({"query": f"adsorbate.{n1}", "clause": "outcome depends on the query history", "last_query": f"adsorbate.{n2}"},
+                             {"adsorbate": ads_name, "class": label, "definition": {k: v for k, v in d.items()}, "history": [f"{n2} at {Tb} K"], "query_T": Ta,
+                              "after_history": str(outa), "fresh": str(freshv[(n1, Ta)])})
+    lap("4-5 accessor pairs")
+    # ------------------------------------------------------------------ (6) every ordered pair of reference curves / kernels: module-level caches
+    def real_loaded():
+        return sorted(["thickness:" + str(k) for k in mt._LOADED] + ["kernel:" + os.path.basename(os.path.dirname(str(k))) + "/" + os.path.basename(str(k)) for k in pk._LOADED])
+
+    def expect_loaded():
+        real = real_loaded()
+
+        def chk(reply, real=real):
+            ld = reply.split("ld=[")[1].split("]")[0]
+            model = sorted(x for x in ld.split(";") if x)
+            return model == real, f"_LOADED: model {model}, real {real}"
+        return chk
+    pgrid = np.array([1e-5, 1e-3, 0.05, 0.2, 0.6, 0.9])
+    tnames = sorted(mt._THICKNESS_MODELS)
+    std_of = {"SiO2 Jaroniec/Kruk/Olivier": "SiO2_JKO", "carbon black Kruk/Jaroniec/Gadkaree": "CB_KJG"}
+    std_of = {k: v for k, v in std_of.items() if k in mt._THICKNESS_MODELS and v in getattr(pg.data, "STANDARD_ISOTHERMS", {})}
+
+    def thick(n):
+        return ("ok", canon(mt.get_thickness_model(n)(pgrid)))
+    for n1, n2 in itertools.product(tnames, tnames):
+        clear_module_caches(pg)
+        fr = thick(n2)
+        clear_module_caches(pg)
+        trace.append(("reset", None, None))
+        thick(n1)
+        if n1 in std_of:
+            trace.append((f"M thickness:{std_of[n1]}", expect_loaded(), f"thickness model {n1}"))
+        out = thick(n2)
+        if n2 in std_of:
+            trace.append((f"M thickness:{std_of[n2]}", expect_loaded(), f"thickness model {n1} then {n2}"))
+        ck.count(("thickness", n1, n2), bucket="module-cache-pair:thickness curves")
+        if out != fr:
+            ck.fail_case({"query": f"thickness model {n2}", "clause": "outcome depends on the query history", "last_query": f"thickness model {n1}"},
+                         {"pressures": pgrid.tolist(), "after_history": str(out)[:200], "fresh": str(fr)[:200]})
+    kfiles = dict(KERNEL_FILES)
+    kfiles["internal"] = str(pg.data.KERNELS["DFT-N2-77K-carbon-slit"])
+
+    def kern(path):
+        k = pk._load_kernel(path)
+        return ("ok", canon([(w, float(k[w](0.01)), float(k[w](0.5))) for w in list(k)[:12]]))
+
+    def ktok(name):
+        return "kernel:" + os.path.basename(os.path.dirname(kfiles[name])) + "/" + os.path.basename(kfiles[name])
+    for n1, n2 in itertools.product(sorted(kfiles), sorted(kfiles)):
+        clear_module_caches(pg)
+        fr = kern(kfiles[n2])
+        clear_module_caches(pg)
+        trace.append(("reset", None, None))
+        kern(kfiles[n1])
+        trace.append((f"M {ktok(n1)}", expect_loaded(), f"kernel {n1}"))
+        out = kern(kfiles[n2])
+        trace.append((f"M {ktok(n2)}", expect_loaded(), f"kernel {n1} then {n2}"))
+        ck.count(("kernel", n1, n2), bucket="module-cache-pair:kernels")
+        if out != fr:
+            ck.fail_case({"query": f"kernel {n2}", "clause": "outcome depends on the query history", "last_query": f"kernel {n1}"},
+                         {"files": [n1, n2], "after_history": str(out)[:200], "fresh": str(fr)[:200]})
+    # the same through the analyses that use the caches, on a real isotherm
+    world = rng.choice(measured)
+    for (qa, qb) in [("t_plot(SiO2 ref)", "t_plot(carbon ref)"), ("t_plot(carbon ref)", "t_plot(SiO2 ref)"), ("psd_mesoporous(SiO2 thickness)", "t_plot(carbon ref)"),
+                     ("psd_dft(user kernel)", "psd_dft(user kernel 2, des)"), ("psd_dft(user kernel 2, des)", "psd_dft(user kernel)")]:
+        byname = {q[0]: q for q in queries}
+        run_history(world, [byname[qa], byname[qb]], 7, bucket_prefix="module-cache-analysis:")
+    for (ka, kb) in (("a/kernel.csv", "b/kernel.csv"), ("b/kernel.csv", "a/kernel.csv")):
+        fa = ("psd_dft(" + ka + ")", lambda o, k=ka: pgc.psd_dft(o["iso"], kernel=o["kernel"][k], bspline_order=2))
+        fb = ("psd_dft(" + kb + ")", lambda o, k=kb: pgc.psd_dft(o["iso"], kernel=o["kernel"][k], bspline_order=2))
+        run_history(world, [fa, fb], 11, bucket_prefix="module-cache-analysis:")
+
     # gas-basis read followed by liquid-basis read on one isotherm (same adsorbate state)
-    for sample in rng.sample(SAMPLES, 2):
-        objs = fresh(sample)
-        rf = outcome(lambda o: o["iso"].loading(loading_basis="volume_liquid", loading_unit="cm3"), fresh(sample))
+    for world in rng.sample(measured, 2):
+        rf = outcome(lambda o: o["iso"].loading(loading_basis="volume_liquid", loading_unit="cm3"), fresh(world))
+        objs = fresh(world)
         outcome(lambda o: o["iso"].loading(loading_basis="volume_gas", loading_unit="cm3"), objs)
         r = outcome(lambda o: o["iso"].loading(loading_basis="volume_liquid", loading_unit="cm3"), objs)
-        ck.count((sample, "gas-then-liquid"), bucket="targeted-pair:isotherm gas then liquid basis")
+        ck.count((world["name"], "gas-then-liquid"), bucket="targeted-pair:isotherm gas then liquid basis")
         if r != rf:
             ck.fail_case({"query": "loading(volume_liquid)", "clause": "outcome depends on the query history", "last_query": "loading(volume_gas) on the same isotherm"},
-                         {"sample": sample, "after_history": str(r)[:160], "fresh": str(rf)[:160]})
+                         {"sample": world["name"], "after_history": str(r)[:160], "fresh": str(rf)[:160]})
     # the same through isotherms of one adsorbate at two temperatures
-    for sample in rng.sample(SAMPLES, 2):
-        objs = fresh(sample)
+    for world in rng.sample(measured, 2):
+        r3f = outcome(lambda o: o["iso"].loading_at(0.3, pressure_mode="relative"), fresh(world))
+        objs = fresh(world)
         r1 = outcome(lambda o: o["iso"].pressure(pressure_mode="relative"), objs)
         outcome(lambda o: o["cold"].pressure(pressure_mode="relative"), objs)
         outcome(lambda o: o["cold"].loading(loading_basis="volume_liquid", loading_unit="cm3"), objs)
         r2 = outcome(lambda o: o["iso"].pressure(pressure_mode="relative"), objs)
         r3 = outcome(lambda o: o["iso"].loading_at(0.3, pressure_mode="relative"), objs)
-        r3f = outcome(lambda o: o["iso"].loading_at(0.3, pressure_mode="relative"), fresh(sample))
-        ck.count((sample, "two-temperatures"), bucket="targeted-triple:isotherms")
+        ck.count((world["name"], "two-temperatures"), bucket="targeted-triple:isotherms")
         if r1 != r2 or r3 != r3f:
             ck.fail_case({"query": "pressure(relative)", "clause": "outcome depends on the query history", "last_query": "queries on an isotherm of the same adsorbate at 87.3 K"},
-                         {"sample": sample, "first": str(r1)[:120], "again": str(r2)[:120]})
+                         {"sample": world["name"], "first": str(r1)[:120], "again": str(r2)[:120]})
+    lap("6 module caches and remaining pairs")
+    # ------------------------------------------------------------------ (7) the Lean cache model on the recorded trace
+    lines = [t[0] for t in trace]
+    try:
+        replies = ck.drive("Cache", lines)
+    except Exception as e:  # noqa  (the oracles above have already run: a driver that cannot be run is a broken step, not the end of the check)
+        ck.broken.append({"step": "driver Cache", "what": str(e)[:1500]})
+        replies = []
+    bad = []
+    for (ln, chk, what), reply in zip(trace, replies):
+        if reply.strip() == "bad-op":
+            bad.append({"line": ln, "reply": reply, "what": what})
+            continue
+        if chk is None:
+            continue
+        ok, msg = chk(reply)
+        ck.count(("model", ln, what), nontrivial=False, bucket="cache-model:" + ln.split(" ")[0])
+        if not ok:
+            bad.append({"line": ln, "reply": reply, "real": msg, "what": what})
+    if bad:
+        ck.broken.append({"step": "correspondence Model/Cache.lean (driver Cache)", "what": f"{len(bad)} of {len(lines)} modelled calls disagree with the real hidden state / outcome kind; first: {bad[:3]}"})
+    lap("7 Lean cache model")
+    ck.cov["cache_model_lines"] = len(lines)
     ck.cov["queries_in_catalogue"] = len(queries)
-    ck.cov["rule"] = ("seeded sequences (quick 22 x 2-8, thorough 160 x 2-14) drawn from a catalogue of read-only calls on the five measured N2/77 K sample isotherms: accessors in several units, loading_at / pressure_at / "
-                      "spreading_pressure_at over branch x kind x fill x inside/outside the range, exports, 18 characterisation / fitting / IAST entry points, and calls on a second isotherm of the same adsorbate at another temperature and on "
-                      "the adsorbate itself; every call is compared with the same call on a fresh object (module caches cleared) and every argument is snapshotted before/after; non-trivial = call issued after at least one other call; "
-                      "distinct = distinct (sample, history, call)")
-    ck.assumptions += ["that the characterisation / fitting / IAST routines do not write to their arguments is observed on these runs, not proved (no model of their bodies)"]
+    ck.cov["rule"] = ("worlds = the five measured N2/77 K sample isotherms + synthetic two-branch isotherms (with an enthalpy column and a material that carries properties) of one adsorbate per class "
+                      "(built-in with backend and all constants stored / with a constant not stored / without backend; user-defined with backend and nothing stored / some keys stored / without backend), "
+                      "each with a reference isotherm, a second temperature, two model isotherms, an IAST pair, raw arrays and user kernel files; "
+                      "(1) one sweep per world = one long history containing every catalogue entry once (every function exported by pygaps.characterisation — completeness checked by introspection —, "
+                      "every public thermodynamic accessor with calculate True/False at the isotherm temperature and another one, exports, fitting, model-isotherm queries, IAST); "
+                      "(2) seeded random histories (quick 22 x 2-8, thorough 160 x 2-14) over the same catalogue plus loading_at / pressure_at / spreading_pressure_at over branch x kind x fill x inside/outside the range; "
+                      "(3) pairs of interpolation queries whose cache keys differ in one component; (4,5) ordered pairs / triples of accessors on a fresh adsorbate object of every class at temperatures inside and above the saturation range; "
+                      "(6) ordered pairs of thickness curves and of kernel files (two of the same name), directly and through t_plot / psd_mesoporous / psd_dft; "
+                      "every call is compared with the same call on fresh objects (fresh registry, module caches cleared) and every object passed is snapshotted before/after (adsorbate / material properties exact and ordered); "
+                      "(7) the recorded trace is run through the Lean cache model and its hidden state / outcome kind compared with the real objects; non-trivial = call issued after at least one other call; "
+                      "distinct = distinct (world, history, call)")
+    ck.assumptions += ["that the characterisation / fitting / IAST routines do not write to their arguments is observed on these runs, not proved (no model of their bodies)",
+                       "the values CoolProp returns for a flash (the residue F of Model/Cache.lean Thermo) are a function of the flash arguments only: observed through brand-new states, not proved"]
+
+
+def _ids_of(v):
+    if isinstance(v, (list, tuple)):
+        return tuple(_ids_of(x) for x in v)
+    return v.iso_id if _is_isotherm(v) else None
 
 
 def _first_diff(a, b):
+    """Smallest description of where two snapshots differ."""
     if isinstance(a, dict) and isinstance(b, dict):
         for k in a:
             if a[k] != b.get(k):
-                return {k: [str(a[k])[:160], str(b.get(k))[:160]]}
-    return [str(a)[:160], str(b)[:160]]
+                return {k: _first_diff(a[k], b.get(k))}
+        return {"new keys": [str(k) for k in b if k not in a]}
+    if isinstance(a, (list, tuple)) and isinstance(b, (list, tuple)):
+        if len(a) == len(b):
+            for i, (x, y) in enumerate(zip(a, b)):
+                if x != y:
+                    return {f"[{i}]": _first_diff(x, y)}
+        try:
+            return {"only before": [str(x)[:160] for x in a if x not in b][:4], "only after": [str(x)[:160] for x in b if x not in a][:4],
+                    "order changed": sorted(map(str, a)) == sorted(map(str, b))}
+        except Exception:
+            pass
+    return [str(a)[:200], str(b)[:200]]
